@@ -105,6 +105,18 @@ def _run(case):
     def names():
         return [[pid, list(objs[pid].species_names)] for pid in sorted(objs)]
 
+    def refs():
+        """which live phase object every species object made so far refers to (species.phase)"""
+        out = []
+        for n in sorted(sp):
+            ph = getattr(sp[n], 'phase', None)
+            who = 'none' if ph is None else 'other'
+            for pid, o in objs.items():
+                if o is ph:
+                    who = pid
+            out.append([n, who])
+        return out
+
     def elems():
         return [[pid, sorted(objs[pid].elements)] for pid in sorted(objs)]
     watch = case.get('watch', True)       # read .elements of every live phase after every call
@@ -125,7 +137,7 @@ def _run(case):
     flavour = case.get('flavour', 0)
     for k, op in enumerate(case['ops']):
         act, p = op['act'], op['p']
-        ev = {'ev': act, 'p': p, 'raised': False, 'own': [], 'names': [], 'elems': []}
+        ev = {'ev': act, 'p': p, 'raised': False, 'own': [], 'names': [], 'elems': [], 'refs': []}
         try:
             if act == 'new':
                 cls = _phase_class(case['objs'][p], flavour + k)
@@ -180,6 +192,7 @@ def _run(case):
             mism.append({'step': k, 'op': _brief(op), 'raised': '%s: %s' % (type(ex).__name__, ex)})
             break
         ev['names'] = names()
+        ev['refs'] = refs()
         ev['elems'] = elems() if (watch or k == len(case['ops']) - 1) else []
         events.append(ev)
         if 'mem' in op:                                   # S->C: the state TLC computed
@@ -262,6 +275,31 @@ def random_case(rnd, cid):
             continue
         p = rnd.choice(sorted(cur))
         r = rnd.random()
+        movable = [(q, x) for q in sorted(cur) for x in cur[q] if q != p and x not in cur[p]]
+        if movable and rnd.random() < 0.2:
+            # MOVE species x from q to p: add-then-remove or remove-then-add, by remove / pop (+/-) / clear
+            q, x = rnd.choice(movable)
+            add = {'act': 'append', 'p': p, 's': x, 'L': [], 'i': 0}
+            how = rnd.choice(['remove', 'pop', 'popneg', 'clear'])
+            i = cur[q].index(x)
+            if how == 'remove':
+                rem = [{'act': 'remove', 'p': q, 's': x, 'L': [], 'i': 0}]
+            elif how in ('pop', 'popneg'):
+                rem = [{'act': 'pop', 'p': q, 's': '-', 'L': [], 'i': i if how == 'pop' else i - len(cur[q])}]
+            else:
+                rest = [y for k, y in enumerate(cur[q]) if k != i]
+                rem = [{'act': 'clear', 'p': q, 's': '-', 'L': [], 'i': 0}] + \
+                    ([{'act': 'extend', 'p': q, 's': '-', 'L': rest, 'i': 0}] if rest else [])
+            first = rnd.random() < 0.6
+            ops.extend(([add] + rem) if first else (rem + [add]))
+            ops[-1]['move'] = ops[-2]['move'] = how + ('_add_first' if first else '_remove_first')
+            if how == 'clear':
+                cur[q] = [y for k, y in enumerate(cur[q]) if k != i]
+            else:
+                cur[q].pop(i)
+            cur[p].append(x)
+            ops.append({'act': 'observe', 'p': p, 's': '-', 'L': [], 'i': 0})
+            continue
         if r < 0.35:
             s = rnd.choice(names)
             cur[p].append(s)
@@ -364,4 +402,13 @@ def models(ctx):
         if bad.ok or bad.violated is None:
             raise core.MachineryError('the shared-default variant of Phases.tla should be rejected')
         ctx.notes.append('Phases.tla rejects the shared default list variant: %s violated' % bad.violated)
-    return [good, shared, stale]
+    def detach():
+        bad = ctx.model('MC_Phases', 'MC_Phases_detach', workers=2, expect_ok=False)
+        if bad.ok or bad.violated is None:
+            raise core.MachineryError('the detach-always variant of Phases.tla should be rejected')
+        ctx.notes.append('Phases.tla rejects a removal that wipes species.phase unconditionally: %s violated'
+                         % bad.violated)
+
+    def detach_self():
+        ctx.model('MC_Phases', 'MC_Phases_detachself', workers=8)
+    return [good, shared, stale, detach] + ([] if ctx.quick else [detach_self])
